@@ -165,7 +165,11 @@ func Run(c *engine.Ctx) {
 	var evals int64
 	outcomes := map[string]int{}
 	for nk := 1; nk <= 3 && !client.VerifMinimal; nk++ {
-		for _, limit := range []int{1, 100, 1465} {
+		limits := []int{1, 100, 1465}
+		if nk <= 2 {
+			limits = []int{1, 100, 1465, 0, 2} // 0 and 2: every request is larger (TCP first, UDP permitted); only 1 means TCP alone
+		}
+		for _, limit := range limits {
 			cfg := confFor(nk, limit)
 			cl := client.NewWithPassword(cworld.User, cworld.Realm, "x", cfg, client.DisablePAFXFAST(true))
 			nEnd := 2 * nk
@@ -238,10 +242,11 @@ func Run(c *engine.Ctx) {
 	c.Add("evaluations", evals)
 	c.Cov["outcome_histogram"] = outcomes
 	c.Sample(caseRec{KDCs: 2, Limit: 100, ReqLen: len(req), UDP: []string{"refuses", "answers"}, TCP: []string{"silent", "closes-early"}, RandomAns: []int{0, 0, 0, 0}})
-	c.Cov["rule"] = "every assignment of {answers, refuses, closes early, silent, KRB-ERROR, too-big (UDP) / partial reply (TCP)} to each (KDC, transport) endpoint for 1-3 KDCs (36 + 1,296 + 46,656) x udp_preference_limit {1, below the request size, above it} x every outcome of the random server order (all for 1-2 KDCs; default order for 3 KDCs in the quick tier, all 36 in the thorough tier); distinct = sampled (kdcs, limit, assignment, outcome) classes; evaluations = runs of sendToKDC"
+	c.Cov["rule"] = "every assignment of {answers, refuses, closes early, silent, KRB-ERROR, too-big (UDP) / partial reply (TCP)} to each (KDC, transport) endpoint for 1-3 KDCs (36 + 1,296 + 46,656) x udp_preference_limit {1, below the request size, above it; for 1-2 KDCs also 0 and 2} x every outcome of the random server order (all for 1-2 KDCs; default order for 3 KDCs in the quick tier, all 36 in the thorough tier); distinct = sampled (kdcs, limit, assignment, outcome) classes; evaluations = runs of sendToKDC"
 	loginLevel(c)
 	retainedReplies(c, req)
 	sizesAndRealmNames(c, req)
+	udpSizesAndErrorSequences(c, req)
 }
 
 func safeRun(f func()) (p string) {
@@ -412,7 +417,7 @@ func judge(nk, limit, reqLen int, beh []int, script []int, rb []byte, rerr error
 
 // loginLevel: the same through Client.Login with a simulated KDC behind the answering endpoints (reduced set).
 func loginLevel(c *engine.Ctx) {
-	for _, limit := range []int{1, 100, 1465} {
+	for _, limit := range []int{1, 100, 1465, 0} {
 		for a := 0; a < 16*16; a++ {
 			beh := []int{a % 4, (a / 4) % 4, (a / 16) % 4, (a / 64) % 4} // udp1, udp2, tcp1, tcp2 over {answers, refuses, closes, silent}
 			o := cworld.DefaultOpts()
@@ -556,6 +561,154 @@ func min(a, b int) int {
 // sizesAndRealmNames: (a) replies of every size class over TCP (also after RESPONSE_TOO_BIG over UDP) are returned
 // byte for byte, with a dead KDC tried first; (b) realms whose configured name is not upper case are served like
 // any other (the name is looked up as it is written).
+// udpSizesAndErrorSequences: (a) a datagram reply of every size the receive buffer can hold is returned intact when
+// only UDP works; (b) every ordered pair of KRB-ERROR shapes (optional fields present / absent) sent in two
+// consecutive exchanges of one process: each surfaced error is the one that was sent, field by field.
+func udpSizesAndErrorSequences(c *engine.Ctx, req []byte) {
+	if client.VerifMinimal {
+		return
+	}
+	var n int64
+	for _, size := range []int{1, 2, 100, 1464, 1465, 1466, 2048, 4094, 4095, 4096} {
+		for _, limit := range []int{0, 100, 1465, 32700} {
+			vnet.Reset()
+			vclock.Set(cworld.T0)
+			vrand.Script(nil)
+			cfg := confFor(2, limit)
+			cl := client.NewWithPassword(cworld.User, cworld.Realm, "x", cfg, client.DisablePAFXFAST(true))
+			body := make([]byte, size)
+			for i := range body {
+				body[i] = byte(i*7 + i/251)
+			}
+			body[0] = 0x6b
+			for _, k := range []string{"kdc1", "kdc2"} {
+				vnet.Register("tcp", k+".test.gokrb5:88", &vnet.Endpoint{Behaviour: vnet.Refuse})
+			}
+			vnet.Register("udp", "kdc1.test.gokrb5:88", &vnet.Endpoint{Behaviour: vnet.Refuse})
+			vnet.Register("udp", "kdc2.test.gokrb5:88", &vnet.Endpoint{Behaviour: vnet.Answer, Handler: func(string, string, []byte) []byte { return body }})
+			var rb []byte
+			var err error
+			pn := safeRun(func() { rb, err = cl.VerifSendToKDC(req, cworld.Realm) })
+			n++
+			rec := map[string]interface{}{"udp_reply_bytes": size, "udp_preference_limit": limit, "kdcs": "TCP refused everywhere, kdc1 refuses UDP, kdc2 answers over UDP"}
+			switch {
+			case pn != "":
+				c.Violate("sizes", "panic:udp-reply-size", map[string]interface{}{"panic": pn}, rec)
+			case err != nil:
+				c.Violate("sizes", "fails-although-a-kdc-answers:udp-reply-size", map[string]interface{}{"err": err.Error()}, rec)
+			case !bytes.Equal(rb, body):
+				c.Violate("sizes", "reply-not-returned-intact:udp-reply-size", map[string]interface{}{"returned_len": len(rb)}, rec)
+			default:
+				c.Distinct(fmt.Sprintf("udpsize/%d/%d", size, limit))
+			}
+		}
+	}
+	str := func(s string) *string { return &s }
+	type shape struct {
+		name string
+		e    krbmsg.KRBError
+	}
+	base := func(code int32) krbmsg.KRBError {
+		return krbmsg.KRBError{PVNO: 5, MsgType: 30, STime: cworld.T0, Code: code, Realm: cworld.Realm, SName: krbmsg.PrincipalName{Type: 2, Names: []string{"krbtgt", cworld.Realm}}}
+	}
+	full := base(25)
+	full.CRealm, full.CName, full.EText, full.EData = str("CLIENT.REALM"), &krbmsg.PrincipalName{Type: 1, Names: []string{"someone"}}, str("additional pre-authentication required"), []byte{0x30, 0x03, 0x02, 0x01, 0x07}
+	ct, cu := cworld.T0.Add(-3*time.Second), int64(123456)
+	full.CTime, full.Cusec, full.Susec = &ct, &cu, 654321
+	bare := base(6)
+	textOnly := base(7)
+	textOnly.EText = str("server not found")
+	dataOnly := base(24)
+	dataOnly.EData = []byte{0x04, 0x02, 0xab, 0xcd}
+	nameOnly := base(68)
+	nameOnly.CRealm, nameOnly.CName = str("OTHER.REALM"), &krbmsg.PrincipalName{Type: 10, Names: []string{"a", "b"}}
+	shapes := []shape{{"all-optional-fields", full}, {"no-optional-fields", bare}, {"e-text-only", textOnly}, {"e-data-only", dataOnly}, {"client-name-only", nameOnly}}
+	render := func(e krbmsg.KRBError) string {
+		s := fmt.Sprintf("code=%d realm=%s sname=%v susec=%d", e.Code, e.Realm, e.SName.Names, e.Susec)
+		if e.CRealm != nil {
+			s += " crealm=" + *e.CRealm
+		} else {
+			s += " crealm="
+		}
+		if e.CName != nil {
+			s += fmt.Sprintf(" cname=%d%v", e.CName.Type, e.CName.Names)
+		} else {
+			s += " cname=0[]"
+		}
+		if e.EText != nil {
+			s += " etext=" + *e.EText
+		} else {
+			s += " etext="
+		}
+		s += fmt.Sprintf(" edata=%x", e.EData)
+		if e.CTime != nil {
+			s += fmt.Sprintf(" ctime=%d cusec=%d", e.CTime.Unix(), *e.Cusec)
+		} else {
+			s += " ctime=none"
+		}
+		return s
+	}
+	renderG := func(e messages.KRBError) string {
+		s := fmt.Sprintf("code=%d realm=%s sname=%v susec=%d crealm=%s cname=%d%v etext=%s edata=%x", e.ErrorCode, e.Realm, e.SName.NameString, e.Susec, e.CRealm, e.CName.NameType, append([]string{}, e.CName.NameString...), e.EText, e.EData)
+		if !e.CTime.IsZero() {
+			s += fmt.Sprintf(" ctime=%d cusec=%d", e.CTime.Unix(), e.Cusec)
+		} else {
+			s += " ctime=none"
+		}
+		return s
+	}
+	for _, transport := range []string{"udp", "tcp"} {
+		for _, first := range shapes {
+			for _, second := range shapes {
+				vnet.Reset()
+				vclock.Set(cworld.T0)
+				vrand.Script(nil)
+				limit := 1465
+				if transport == "tcp" {
+					limit = 1
+				}
+				cfg := confFor(1, limit)
+				cl := client.NewWithPassword(cworld.User, cworld.Realm, "x", cfg, client.DisablePAFXFAST(true))
+				cur := first
+				for _, nw := range []string{"udp", "tcp"} {
+					vnet.Register(nw, "kdc1.test.gokrb5:88", &vnet.Endpoint{Behaviour: vnet.Answer, Handler: func(string, string, []byte) []byte { return cur.e.Encode() }})
+				}
+				rec := map[string]interface{}{"transport": transport, "first_error": first.name, "second_error": second.name}
+				bad := false
+				for step, sh := range []shape{first, second} {
+					cur = sh
+					var err error
+					pn := safeRun(func() { _, err = cl.VerifSendToKDC(req, cworld.Realm) })
+					n++
+					ke, isK := err.(messages.KRBError)
+					switch {
+					case pn != "":
+						c.Violate("errors", "panic:krb-error-sequence", map[string]interface{}{"panic": pn}, rec)
+						bad = true
+					case !isK:
+						c.Violate("errors", "krb-error-not-surfaced-as-that-error", map[string]interface{}{"err": fmt.Sprint(err), "step": step}, rec)
+						bad = true
+					case renderG(ke) != render(sh.e):
+						key := "krb-error-surfaced-with-other-fields"
+						if step == 1 {
+							key += ":second-exchange"
+						}
+						c.Violate("errors", key, map[string]interface{}{"surfaced": renderG(ke), "sent": render(sh.e), "step": step}, rec)
+						bad = true
+					}
+					if bad {
+						break
+					}
+				}
+				if !bad {
+					c.Distinct("errseq/" + transport + "/" + first.name + "/" + second.name)
+				}
+			}
+		}
+	}
+	c.Add("evaluations", n)
+}
+
 func sizesAndRealmNames(c *engine.Ctx, req []byte) {
 	if client.VerifMinimal {
 		return
